@@ -746,3 +746,51 @@ Section GetRestores.
     rewrite <- Hcode. unfold s0. destruct s; reflexivity.
   Qed.
 End GetRestores.
+
+(* ================= statements as used by Props/C19.v ================= *)
+Section Statements.
+  Context {FO : FloatOps}.
+
+  Lemma list_add_moves_exactly_lemma (s : state) :
+    (st_ivec s = [] -> list_add s = Ok s) /\
+    (forall ids rest, st_ivec s = ids :: rest ->
+       let s0 := set_ivec s rest in
+       let d := designate ids s0 in
+       list_add s = Ok (push_code (snd d) (fst d)) /\
+       d = (IList (rev (picked [] ids s0)), drop_counts ids s0) /\
+       Permutation (all_items s0) (rev (picked [] ids s0) ++ all_items (drop_counts ids s0))).
+  Proof.
+    split.
+    - intro H. rewrite list_add_designate, H. reflexivity.
+    - intros ids rest H s0 d. split; [|split].
+      + rewrite list_add_designate, H. reflexivity.
+      + apply designate_picked.
+      + pose proof (designate_conserves ids s0) as HP. rewrite designate_picked in HP. exact HP.
+  Qed.
+
+  Lemma i32_as_usize_nonneg n : min32 <= n -> 0 <= i32_as_usize n.
+  Proof. unfold i32_as_usize, min32, two64. intro H. destruct (n <? 0) eqn:E; lia. Qed.
+
+  Lemma list_vals_lemma (s : state) (n idx : Z) (r : list Z) :
+    st_int s = n :: idx :: r ->
+    min32 <= n ->
+    0 < zlen (st_code s) <= max32 ->
+    exists t, nth_error (st_code s) (Z.to_nat (clamped_pos idx (zlen (st_code s)))) = Some t /\
+      list_bval s = Ok (push_bool (set_int s r) (nth (Z.to_nat (i32_as_usize n)) (bools_of t) false)) /\
+      list_ival s = Ok (push_int (set_int s r) (nth (Z.to_nat (i32_as_usize n)) (ints_of t) 0)) /\
+      list_fval s = Ok (push_float (set_int s r) (nth (Z.to_nat (i32_as_usize n)) (floats_of t) f_zero)).
+  Proof.
+    intros Hi Hn Hc. pose proof (i32_as_usize_nonneg n Hn) as Hu.
+    destruct (list_val_lemma bval push_bool s n idx r Hi Hc) as [t [Ht Hb]].
+    destruct (list_val_lemma ival push_int s n idx r Hi Hc) as [t2 [Ht2 Hi2]].
+    destruct (list_val_lemma fval push_float s n idx r Hi Hc) as [t3 [Ht3 Hf3]].
+    rewrite Ht in Ht2, Ht3. inversion Ht2; inversion Ht3; subst t2 t3.
+    exists t. split; [exact Ht|].
+    unfold list_bval, list_ival, list_fval. rewrite Hb, Hi2, Hf3.
+    rewrite bval_spec, ival_spec, fval_spec.
+    replace (i32_as_usize n <? 0) with false by lia. repeat split; reflexivity.
+  Qed.
+
+  Lemma list_remove_no_operand (s : state) : st_int s = [] -> list_remove s = Ok s.
+  Proof. intro H. unfold list_remove. now rewrite H. Qed.
+End Statements.
